@@ -244,6 +244,60 @@ pub fn apply_program<'a>(p: &Program, objs: &'a [Obj]) -> Result<MessageBuilder<
     Ok(b)
 }
 
+/// The same program, with the builder observed between every two additions through its `&self`
+/// methods (`byte_len`, `build`, `write_into`, `has_attribute`, a dropped clone): observing a builder
+/// must not change what it serialises later.
+pub fn apply_program_observed<'a>(p: &Program, objs: &'a [Obj]) -> Result<MessageBuilder<'a>, String> {
+    let full = objs.len() <= 48;
+    let light = objs.len() <= 2048;
+    fn observe(b: &MessageBuilder<'_>, i: usize, full: bool, light: bool) {
+        if light {
+            let n = b.byte_len();
+            if full {
+                match i % 4 {
+                    0 => {
+                        let _ = b.build();
+                    }
+                    1 => {
+                        let mut d = vec![0xEEu8; n];
+                        let _ = b.write_into(&mut d);
+                    }
+                    2 => {
+                        let _ = b.clone().into_owned().build();
+                    }
+                    _ => {
+                        let mut d = vec![0u8; n / 2];
+                        let _ = b.write_into(&mut d);
+                    }
+                }
+                let _ = b.has_attribute(AttributeType::new(0x0006));
+            }
+        }
+    }
+    let mut b = new_builder(p);
+    observe(&b, 3, full, light);
+    observe(&b, 0, full, light);
+    for (i, o) in objs.iter().enumerate() {
+        match o {
+            Obj::Typed(a) => b.add_attribute(a.as_ref()).map_err(|e| format!("add_attribute #{i}: {e:?}"))?,
+            Obj::Raw(t, v) => b
+                .add_raw_attribute(RawAttribute::new(AttributeType::new(*t), v))
+                .map_err(|e| format!("add_raw_attribute #{i}: {e:?}"))?,
+        }
+        observe(&b, i, full, light);
+    }
+    let creds = imp::to_impl_creds(&p.creds);
+    for (i, s) in p.seals.iter().enumerate() {
+        match s {
+            SealSpec::Sha1 => b.add_message_integrity(&creds, IntegrityAlgorithm::Sha1).map_err(|e| format!("add sha1: {e:?}"))?,
+            SealSpec::Sha256 => b.add_message_integrity(&creds, IntegrityAlgorithm::Sha256).map_err(|e| format!("add sha256: {e:?}"))?,
+            SealSpec::Fp => b.add_fingerprint().map_err(|e| format!("add fingerprint: {e:?}"))?,
+        }
+        observe(&b, i, full, light);
+    }
+    Ok(b)
+}
+
 /// Convenience: program -> bytes through the builder (None if anything was refused or panicked).
 /// The same program serialised with `write_into` into a destination pre-filled with `fill`
 /// (a reused, not zeroed, transmit buffer), optionally after `into_owned()`.
